@@ -4,10 +4,8 @@ from . import kernel, whomay
 def check(ctx):
     kernel.run_tables(ctx, 'C20', [
         ('RealtimeEnvironment', '__init__'), ('RealtimeEnvironment', 'sync'), ('RealtimeEnvironment', 'step'),
-        ('RealtimeEnvironment', 'factor'), ('RealtimeEnvironment', 'strict'), ('Environment', 'step'),
-        ('Environment', 'peek'),
+        ('RealtimeEnvironment', 'factor'), ('RealtimeEnvironment', 'strict'),
     ])
-    whomay.kernel_state_writers(ctx, 'C20')
     whomay.rt_overrides(ctx, 'C20')
     return ('Static: RealtimeEnvironment.step compared with the reference table (due = real_start + (t - env_start) * '
             'factor; strict error iff monotonic() - due > factor, before any sleep; sleep re-checked in a loop until '
